@@ -7,8 +7,9 @@ package query
 // Output: VERIF_OUT  = ndjson, one row per executed case (appended; rows already present are
 //                      skipped, so the driver can restart the process after a hang).
 //
-// Every case runs query.Parse in a child goroutine under a watchdog.  A goroutine that never
-// returns cannot be killed: the row is written, and the process exits with status 3; the
+// Every case runs query.Parse in a child goroutine under a watchdog (budget = CPU time of the
+// parsing thread, so that a busy machine cannot fake a hang).  A goroutine that never returns
+// cannot be killed: the row is written, and the process exits with status 3; the
 // driver starts a fresh process that continues behind the last row.
 //
 // The harness judges nothing.  It records what the real parser did (returned / panicked /
@@ -28,6 +29,7 @@ import (
 	"runtime/debug"
 	"strconv"
 	"strings"
+	"syscall"
 	"testing"
 	"time"
 
@@ -52,6 +54,7 @@ type vpIn struct {
 	Toks []vpTok `json:"toks"`
 	Syn  bool    `json:"syn"`
 	Size int     `json:"size"`
+	Vol  int     `json:"vol"`
 	Wf   string  `json:"wf"`
 	// replay of a recorded case: the exact text, base64
 	Text64 string `json:"text64"`
@@ -72,6 +75,7 @@ type vpRow struct {
 	Budget  int      `json:"budget"`
 	Verdict string   `json:"verdict"` // ok | err | panic | timeout (crash: set by the driver)
 	Ms      int      `json:"ms"`
+	CPU     int      `json:"cpu"` // ms of CPU time of the parsing thread
 	Same    bool     `json:"same"`
 	NConds  int      `json:"nconds"`
 	LexOK   bool     `json:"lexok"`
@@ -82,7 +86,7 @@ type vpRow struct {
 	Show    string   `json:"show"`
 }
 
-const vpCap = 300
+const vpCap, vpVolCap = 300, 2000
 
 func vpExpand(s string) string {
 	s = strings.ReplaceAll(s, "<DQ>", `"`)
@@ -179,11 +183,17 @@ func vpText(toks []vpTok, rng *rand.Rand) string {
 	return sb.String()
 }
 
-// canonical text lexes to exactly the generator's tokens unless an unterminated quote is
-// followed by another double quote (QuotedValue then spans both)
+// canonical text lexes to exactly the generator's tokens unless
+//   - an unterminated quote is followed by another double quote (QuotedValue then spans both),
+//   - a value starts with a double quote (the QuotedValue pattern cannot express it: :"""a" is lexed
+//     as the empty value :"" followed by garbage),
+//   - a converter suffix stands alone (ConverterName extends to the next ':' or '=', blanks included)
 func vpCanonSafe(toks []vpTok) bool {
 	open := false
 	for _, t := range toks {
+		if t.K == "convonly" || (t.Q != "x" && strings.HasPrefix(vpExpand(t.Txt), `"`)) {
+			return false
+		}
 		if open && (t.K == "term" || t.K == "ctl" || t.K == "valonly") {
 			if strings.Contains(vpValue(t, false), `"`) {
 				return false
@@ -309,6 +319,7 @@ type vpResult struct {
 	panic string
 	at    string
 	took  time.Duration
+	cpu   time.Duration
 }
 
 // first frame of package query below the panic (or at the top of a running goroutine),
@@ -339,7 +350,11 @@ func vpFrame(stack string, afterPanic bool) string {
 }
 
 //go:noinline
-func vpParseChild(q string, out chan<- vpResult) {
+func vpParseChild(q string, tid chan<- int, out chan<- vpResult) {
+	// the budget is CPU time of the thread that parses: the goroutine stays on one thread
+	runtime.LockOSThread()
+	defer runtime.UnlockOSThread()
+	tid <- syscall.Gettid()
 	defer func() {
 		if r := recover(); r != nil {
 			msg := fmt.Sprint(r)
@@ -347,8 +362,10 @@ func vpParseChild(q string, out chan<- vpResult) {
 		}
 	}()
 	t0 := time.Now()
+	c0, _ := vpThreadCPU(syscall.Gettid())
 	qq, err := Parse(q)
-	out <- vpResult{q: qq, err: err, took: time.Since(t0)}
+	c1, _ := vpThreadCPU(syscall.Gettid())
+	out <- vpResult{q: qq, err: err, took: time.Since(t0), cpu: c1 - c0}
 }
 
 // where is the child goroutine right now
@@ -363,14 +380,54 @@ func vpWhere() string {
 	return "unknown"
 }
 
-func vpRun(q string, budget time.Duration) (vpResult, bool) {
+// time the thread has spent on a CPU (ns), first field of /proc/self/task/<tid>/schedstat
+func vpThreadCPU(tid int) (time.Duration, bool) {
+	b, err := os.ReadFile(fmt.Sprintf("/proc/self/task/%d/schedstat", tid))
+	if err != nil {
+		return 0, false
+	}
+	f := strings.Fields(string(b))
+	if len(f) == 0 {
+		return 0, false
+	}
+	ns, err := strconv.ParseInt(f[0], 10, 64)
+	return time.Duration(ns), err == nil
+}
+
+// Runs query.Parse in a child goroutine.  The watchdog fires when the parsing thread has used
+// `budget` of CPU time (so that a busy machine does not turn a prompt answer into a time-out);
+// wall clock is the fallback when the thread clock cannot be read, and a hard stop at 8 x budget
+// + 1 s (starved = true: no statement about the parser).
+func vpRun(q string, budget time.Duration) (res vpResult, returned bool, starved bool) {
 	out := make(chan vpResult, 1)
-	go vpParseChild(q, out)
-	select {
-	case r := <-out:
-		return r, true
-	case <-time.After(budget):
-		return vpResult{at: vpWhere()}, false
+	tidc := make(chan int, 1)
+	go vpParseChild(q, tidc, out)
+	tid := <-tidc
+	cpu0, haveCPU := vpThreadCPU(tid)
+	t0 := time.Now()
+	poll := 5 * time.Millisecond
+	for {
+		select {
+		case r := <-out:
+			return r, true, false
+		case <-time.After(poll):
+		}
+		if poll < 40*time.Millisecond {
+			poll *= 2
+		}
+		wall := time.Since(t0)
+		used := wall
+		if haveCPU {
+			if c, ok := vpThreadCPU(tid); ok {
+				used = c - cpu0
+			}
+		}
+		if used >= budget {
+			return vpResult{at: vpWhere()}, false, false
+		}
+		if wall >= 8*budget+time.Second {
+			return vpResult{at: vpWhere()}, false, true
+		}
 	}
 }
 
@@ -385,7 +442,8 @@ func vpSame(a, b vpResult) bool {
 	if a.err != nil {
 		return a.err.Error() == b.err.Error()
 	}
-	shift := int64(b.q.ReferenceTime.Sub(a.q.ReferenceTime))
+	// (wall clock readings: Parse subtracts the reference time from wall-clock-only times)
+	shift := b.q.ReferenceTime.UnixNano() - a.q.ReferenceTime.UnixNano()
 	if len(a.q.Conditions) != len(b.q.Conditions) {
 		return false
 	}
@@ -488,7 +546,7 @@ func TestVerifParser(t *testing.T) {
 		} else {
 			canon := vpText(rec.Toks, nil)
 			cases = append(cases, cs{0, canon, false, vpCanonSafe(rec.Toks)})
-			big := rec.Syn && rec.Size > vpCap
+			big := rec.Syn && (rec.Size > vpCap || rec.Vol > vpVolCap)
 			varied := vpText(rec.Toks, rng)
 			r1, r2, r3 := rng.Intn(100), rng.Intn(100), rng.Intn(2)
 			if !big && (rec.Mode != "value" || r1 < 30) {
@@ -507,7 +565,7 @@ func TestVerifParser(t *testing.T) {
 				continue
 			}
 			b := budget
-			if rec.Text64 == "" && rec.Syn && rec.Size > vpCap {
+			if rec.Text64 == "" && rec.Syn && (rec.Size > vpCap || rec.Vol > vpVolCap) {
 				b = short
 			}
 			row := vpRow{ID: rec.ID, Case: c.n, Mut: c.mut, Canon: c.canon, Budget: int(b / time.Millisecond),
@@ -522,24 +580,30 @@ func TestVerifParser(t *testing.T) {
 				}
 				row.Verdict = ""
 			}
-			r1, returned := vpRun(c.text, b)
+			r1, returned, starved := vpRun(c.text, b)
 			switch {
 			case !returned:
 				row.Verdict, row.At, row.Ms = "timeout", r1.at, int(b/time.Millisecond)
+				if starved {
+					row.Budget = 0 // the thread did not get its CPU time: inconclusive
+				}
 			case r1.panic != "":
 				row.Verdict, row.At, row.Msg = "panic", r1.at, r1.panic
 			default:
-				row.Ms = int(r1.took / time.Millisecond)
+				row.Ms, row.CPU = int(r1.took/time.Millisecond), int(r1.cpu/time.Millisecond)
 				if r1.err != nil {
 					row.Verdict, row.Msg = "err", r1.err.Error()
 				} else {
 					row.Verdict, row.NConds = "ok", len(r1.q.Conditions)
 				}
-				r2, returned2 := vpRun(c.text, b)
+				r2, returned2, starved2 := vpRun(c.text, b)
 				switch {
 				case !returned2:
 					row.Verdict, row.At, row.Ms = "timeout", r2.at, int(b/time.Millisecond)
 					returned = false
+					if starved2 {
+						row.Budget = 0
+					}
 				case r2.panic != "":
 					row.Verdict, row.At, row.Msg = "panic", r2.at, r2.panic
 				default:
